@@ -300,22 +300,22 @@ func (w *vwWalker) prefix(n int32) []int32 {
 	return p
 }
 
-// match finds the model edge out of node cur with the given control part
-// whose label and observables equal what the code did.
-func (w *vwWalker) match(cur int32, planned int32, ctl, actS, obsS string) int32 {
-	if planned >= 0 {
-		e := &w.g.edges[planned]
-		if e.actS == actS && e.obsS == obsS {
-			return planned
+// match finds the model edges out of the candidate nodes with the given
+// control part whose label and observables equal what the code did.  Several
+// nodes are candidates when the code made a choice that the observables do not
+// reveal at once (e.g. which of two waiting parties the handler served first):
+// all of them are followed until the observables tell them apart.
+func (w *vwWalker) match(curs []int32, ctl, actS, obsS string) []int32 {
+	var m []int32
+	for _, c := range curs {
+		for _, ei := range w.g.out[c] {
+			e := &w.g.edges[ei]
+			if e.ctl == ctl && e.actS == actS && e.obsS == obsS {
+				m = append(m, ei)
+			}
 		}
 	}
-	for _, ei := range w.g.out[cur] {
-		e := &w.g.edges[ei]
-		if e.ctl == ctl && e.actS == actS && e.obsS == obsS {
-			return ei
-		}
-	}
-	return -1
+	return m
 }
 
 func (w *vwWalker) write(tr *vwTrace, always bool) {
@@ -382,7 +382,7 @@ func (w *vwWalker) run(start int32, plan []int32, rng *rand.Rand, mode, depth in
 			return
 		}
 		tr.InitObs = sut.InitObs()
-		cur := start
+		curs := []int32{start}
 		pi := 0
 		for len(tr.Steps) < vwMaxLen {
 			var pe int32 = -1
@@ -390,9 +390,13 @@ func (w *vwWalker) run(start int32, plan []int32, rng *rand.Rand, mode, depth in
 				pe = plan[pi]
 				pi++
 			} else if mode == 0 {
-				pe = w.pickUncovered(cur, rng)
-			} else if len(tr.Steps) < depth && len(w.g.out[cur]) > 0 {
-				pe = w.g.out[cur][rng.Intn(len(w.g.out[cur]))]
+				for _, c := range curs {
+					if pe = w.pickUncovered(c, rng); pe >= 0 {
+						break
+					}
+				}
+			} else if len(tr.Steps) < depth && len(w.g.out[curs[0]]) > 0 {
+				pe = w.g.out[curs[0]][rng.Intn(len(w.g.out[curs[0]]))]
 			}
 			if pe < 0 {
 				return
@@ -403,8 +407,8 @@ func (w *vwWalker) run(start int32, plan []int32, rng *rand.Rand, mode, depth in
 			if d, ok := extra["dump"].(string); ok {
 				st.Dump = d
 			}
-			got := w.match(cur, pe, e.ctl, vwCanon(act), vwCanon(obs))
-			if got < 0 {
+			m := w.match(curs, e.ctl, vwCanon(act), vwCanon(obs))
+			if len(m) == 0 {
 				st.Note = fmt.Sprintf("no model transition for what the code did; the model's (first) prediction was act=%s obs=%s",
 					e.actS, e.obsS)
 				tr.Steps = append(tr.Steps, st)
@@ -419,6 +423,12 @@ func (w *vwWalker) run(start int32, plan []int32, rng *rand.Rand, mode, depth in
 				return
 			}
 			tr.Steps = append(tr.Steps, st)
+			got := m[0]
+			for _, x := range m {
+				if x == pe {
+					got = pe
+				}
+			}
 			w.mark(got)
 			if got != pe {
 				w.mu.Lock()
@@ -426,12 +436,25 @@ func (w *vwWalker) run(start int32, plan []int32, rng *rand.Rand, mode, depth in
 				w.mu.Unlock()
 				pi = len(plan) // the plan no longer applies
 			}
-			ge := &w.g.edges[got]
-			if ge.viol {
+			if w.g.edges[got].viol {
 				always = true
 				return
 			}
-			cur = ge.to
+			// the planned successor first, then the other candidates
+			curs = curs[:0]
+			curs = append(curs, w.g.edges[got].to)
+			for _, x := range m {
+				to := w.g.edges[x].to
+				dup := false
+				for _, c := range curs {
+					if c == to {
+						dup = true
+					}
+				}
+				if !dup {
+					curs = append(curs, to)
+				}
+			}
 		}
 	})
 }
